@@ -100,4 +100,189 @@ theorem entry_entryG (chn k : Nat) (hk : k < 32) (nb ib vb : UInt8) (fx : UInt8 
   · rw [entry_eval chn _ k ni v e hk hw nb ib vb fx.1 fx.2 tail row]
     cases ni <;> cases v <;> cases e <;> simp
 
+
+theorem updG_empty (c : Cell) (h : CellOk c) (force : Nat) :
+    updG (encNote c.note) (u8 c.ins) (volByte c)
+      (decide (c.note ≠ 0 ∨ c.ins ≠ 0 ∨ force % 2 = 1)) (decide (c.vol ≠ 0 ∨ force / 2 % 2 = 1)) {} = c := by
+  obtain ⟨note, ins, vol⟩ := c
+  obtain ⟨hn, hi, hv⟩ := h
+  simp only at hn hi hv
+  have hnote := decNote_encNote hn
+  have hins : (u8 ins).toNat = ins := u8_toNat_lt hi
+  have hvol : ((volByte ⟨note, ins, vol⟩).toNat + 1) % 256 = vol := by
+    unfold volByte; simp only [u8_toNat]; split <;> omega
+  unfold updG
+  simp only [hnote, hins, hvol]
+  by_cases a : (note ≠ 0 ∨ ins ≠ 0 ∨ force % 2 = 1) <;> by_cases b : (vol ≠ 0 ∨ force / 2 % 2 = 1) <;>
+    simp only [a, b, decide_true, decide_false, if_true] <;> simp at a b <;> simp_all
+
+theorem encEntry_length_le (k : Nat) (c : Cell) (force : Nat) (fx : UInt8 × UInt8) :
+    (encEntry k c force fx).length ≤ 6 := by
+  rw [encEntry_eq]; unfold entryG
+  generalize decide (c.note ≠ 0 ∨ c.ins ≠ 0 ∨ force % 2 = 1) = a
+  generalize decide (c.vol ≠ 0 ∨ force / 2 % 2 = 1) = b
+  generalize decide (force / 4 % 2 = 1) = d
+  cases a <;> cases b <;> cases d <;> simp
+
+/-- one row: the entries of the remaining channels followed by the end-of-row byte -/
+theorem row_rt (chn : Nat) (hchn : chn ≤ 32) (force : Nat → Nat) (fx : Nat → UInt8 × UInt8)
+    (cs : List Cell) (hcs : ∀ c ∈ cs, CellOk c) (pre : List Cell) (k i : Nat) (hpre : pre.length = k)
+    (hk : k + cs.length = chn) (tail : Bytes) (fuel : Nat) (pl : Int)
+    (hf : (encRowFrom force fx cs k i).length + 1 ≤ fuel)
+    (hpl : ((encRowFrom force fx cs k i).length : Int) ≤ pl) :
+    ∃ pl' : Int, unpackRow chn fuel (encRowFrom force fx cs k i ++ 0 :: tail) pl
+        (pre ++ List.replicate cs.length ({} : Cell)) = some (pre ++ cs, tail, pl') ∧
+      pl - (encRowFrom force fx cs k i).length ≤ pl' := by
+  induction cs generalizing pre k i fuel pl with
+  | nil =>
+    obtain ⟨f, rfl⟩ : ∃ f, fuel = f + 1 := ⟨fuel - 1, by simp [encRowFrom] at hf; omega⟩
+    simp only [encRowFrom, List.length_nil, Int.natCast_zero] at hpl
+    refine ⟨pl, ?_, by simp [encRowFrom]⟩
+    have : ¬ pl < 0 := by omega
+    simp [encRowFrom, unpackRow, this]
+  | cons c cs ih =>
+    subst hpre
+    have hc : CellOk c := hcs c (by simp)
+    have hk32 : pre.length < 32 := by simp at hk; omega
+    have hkc : pre.length < chn := by simp at hk; omega
+    simp only [encRowFrom, List.length_append] at hf hpl
+    -- the row with cell `c` done
+    have hrow : pre ++ List.replicate (c :: cs).length ({} : Cell) = pre ++ ({} : Cell) :: List.replicate cs.length {} := by
+      simp [List.replicate_succ]
+    have hnext : (pre ++ [c]) ++ List.replicate cs.length ({} : Cell) = pre ++ c :: List.replicate cs.length {} := by simp
+    have hdone : (pre ++ [c]) ++ cs = pre ++ c :: cs := by simp
+    by_cases hne : (encEntry pre.length c (force i) (fx i)) = []
+    · -- omitted entry: the cell is empty
+      have hce : c = {} := by
+        have := updG_empty c hc (force i)
+        rw [encEntry_eq] at hne
+        unfold entryG at hne
+        split at hne
+        · rename_i hh
+          simp only [Bool.and_eq_true, Bool.not_eq_eq_eq_not, Bool.not_true, decide_eq_false_iff_not] at hh
+          rw [← this]
+          simp only [hh.1.1, hh.1.2, decide_false]
+          rfl
+        · simp at hne
+      obtain ⟨pl', h1, h2⟩ := ih (fun c hc => hcs c (by simp [hc])) (pre ++ [c]) (pre.length + 1) (i + 1)
+        (by simp) (by simp at hk ⊢; omega) fuel pl (by rw [hne] at hf; simpa using hf)
+        (by rw [hne] at hpl; simpa using hpl)
+      refine ⟨pl', ?_, ?_⟩
+      · simp only [encRowFrom]
+        rw [hne, List.nil_append]
+        rw [hnext, hdone] at h1
+        subst hce
+        rw [hrow]; exact h1
+      · simp only [encRowFrom]
+        rw [hne, List.nil_append]; exact h2
+    · -- a real entry
+      rw [encEntry_eq] at hne hf hpl
+      have hne' : (!decide (c.note ≠ 0 ∨ c.ins ≠ 0 ∨ force i % 2 = 1) && !decide (c.vol ≠ 0 ∨ force i / 2 % 2 = 1) &&
+          !decide (force i / 4 % 2 = 1)) = false := by
+        cases hb : (!decide (c.note ≠ 0 ∨ c.ins ≠ 0 ∨ force i % 2 = 1) && !decide (c.vol ≠ 0 ∨ force i / 2 % 2 = 1) &&
+          !decide (force i / 4 % 2 = 1))
+        · rfl
+        · exfalso; apply hne; unfold entryG; simp only [hb, if_true]
+      obtain ⟨w, body, hwb, hw0, hbl, hent⟩ := entry_entryG chn pre.length hk32 (encNote c.note) (u8 c.ins) (volByte c) (fx i) _ _ _ hne'
+        (encRowFrom force fx cs (pre.length + 1) (i + 1) ++ 0 :: tail) (pre ++ ({} : Cell) :: List.replicate cs.length {})
+      rw [hwb] at hf hpl
+      simp only [List.length_cons] at hf hpl
+      obtain ⟨f, rfl⟩ : ∃ f, fuel = f + 1 := ⟨fuel - 1, by omega⟩
+      obtain ⟨pl', h1, h2⟩ := ih (fun c hc => hcs c (by simp [hc])) (pre ++ [c]) (pre.length + 1) (i + 1)
+        (by simp) (by simp at hk ⊢; omega) f (pl - body.length) (by omega) (by omega)
+      refine ⟨pl', ?_, ?_⟩
+      · simp only [encRowFrom]
+        rw [encEntry_eq, hwb, hrow]
+        have hnn : ¬ pl < 0 := by omega
+        simp only [List.cons_append, List.append_assoc, unpackRow, hnn, if_false, hw0]
+        rw [hent]
+        simp only [hkc, if_true]
+        rw [modAt_append, updG_empty c hc (force i), ← hnext, h1, hdone]
+      · simp only [encRowFrom, List.length_append]
+        rw [encEntry_eq, hwb]; simp only [List.length_cons]; omega
+
+
+theorem rows_rt (chn : Nat) (hchn : chn ≤ 32) (force : Nat → Nat) (fx : Nat → UInt8 × UInt8)
+    (n : Nat) (cells : List Cell) (hl : cells.length = n * chn) (hcs : ∀ c ∈ cells, CellOk c) (i : Nat)
+    (tail : Bytes) (pl : Int) (hpl : ((encRows chn force fx n cells i).length : Int) ≤ pl) :
+    ∃ R, unpackRows chn n (encRows chn force fx n cells i ++ tail) pl = some R ∧ R.flatten = cells := by
+  induction n generalizing cells i pl with
+  | zero =>
+    refine ⟨[], by simp [unpackRows], ?_⟩
+    have : cells = [] := List.eq_nil_of_length_eq_zero (by simpa using hl)
+    simp [this]
+  | succ n ih =>
+    have hlen : chn ≤ cells.length := by rw [hl]; exact Nat.le_mul_of_pos_left chn (by omega)
+    have htake : (cells.take chn).length = chn := by simp [List.length_take]; omega
+    simp only [encRows, List.length_append, List.length_cons, List.length_nil] at hpl
+    have hnn : ¬ pl < 0 := by omega
+    obtain ⟨pl', h1, h2⟩ := row_rt chn hchn force fx (cells.take chn)
+      (fun c hc => hcs c (List.mem_of_mem_take hc)) [] 0 i rfl (by simp [htake])
+      (encRows chn force fx n (cells.drop chn) (i + chn) ++ tail)
+      ((encRowFrom force fx (cells.take chn) 0 i ++ 0 :: (encRows chn force fx n (cells.drop chn) (i + chn) ++ tail)).length + 1)
+      pl (by simp) (by omega)
+    obtain ⟨R, h3, h4⟩ := ih (cells.drop chn) (by simp [List.length_drop, hl, Nat.add_mul]) 
+      (fun c hc => hcs c (List.mem_of_mem_drop hc)) (i + chn) pl' (by omega)
+    refine ⟨cells.take chn :: R, ?_, ?_⟩
+    · simp only [encRows, unpackRows, hnn, if_false, List.append_assoc, List.cons_append, List.nil_append]
+      simp only [List.nil_append, htake] at h1
+      unfold emptyRow
+      rw [h1]
+      simp only [h3, Option.map_some]
+    · simp [h4]
+
+/-- `(pack …).length ≤ rows * (6 * chn + 1)` -/
+theorem encRowFrom_length_le (force : Nat → Nat) (fx : Nat → UInt8 × UInt8) (cs : List Cell) (k i : Nat) :
+    (encRowFrom force fx cs k i).length ≤ 6 * cs.length := by
+  induction cs generalizing k i with
+  | nil => simp [encRowFrom]
+  | cons c cs ih =>
+    have := encEntry_length_le k c (force i) (fx i)
+    have := ih (k + 1) (i + 1)
+    simp only [encRowFrom, List.length_append, List.length_cons]; omega
+
+theorem encRows_length_le (chn : Nat) (force : Nat → Nat) (fx : Nat → UInt8 × UInt8) (n : Nat) (cells : List Cell) (i : Nat) :
+    (encRows chn force fx n cells i).length ≤ n * (6 * chn + 1) := by
+  induction n generalizing cells i with
+  | zero => simp [encRows]
+  | succ n ih =>
+    have h1 := encRowFrom_length_le force fx (cells.take chn) 0 i
+    have h2 := ih (cells.drop chn) (i + chn)
+    have h3 : (cells.take chn).length ≤ chn := by simp [List.length_take]; omega
+    simp only [encRows, List.length_append, List.length_cons, List.length_nil]
+    rw [Nat.add_mul]; omega
+
+/-- **S3M pattern codec**: a packed pattern, written with any choice of redundant `what` flags and
+effect bytes, preceded by its length word and followed by anything, unpacks to the pattern. -/
+theorem unpack_pack (chn : Nat) (p : Pat) (force : Nat → Nat) (fx : Nat → UInt8 × UInt8) (i : Nat)
+    (hc : 1 ≤ chn ∧ chn ≤ 32) (hp : PatOk chn p) (rest : Bytes) :
+    unpack chn (le16 ((pack chn p force fx i).length + 2) ++ pack chn p force fx i ++ rest) = some p := by
+  obtain ⟨hrows, hlen, hcells⟩ := hp
+  have hL := encRows_length_le chn force fx p.rows p.cells i
+  rw [hrows] at hL
+  have hL2 : (pack chn p force fx i).length + 2 < 65536 := by
+    unfold pack
+    have : 64 * (6 * chn + 1) ≤ 64 * (6 * 32 + 1) := Nat.mul_le_mul_left 64 (by omega)
+    rw [hrows]; omega
+  generalize hd : pack chn p force fx i = d at *
+  obtain ⟨R, h3, h4⟩ := rows_rt chn hc.2 force fx 64 p.cells (by rw [hlen]) hcells i rest d.length
+    (by rw [← hd]; unfold pack; rw [hrows]; exact Int.le_refl _)
+  unfold unpack
+  have e1 : (le16 (d.length + 2) ++ d ++ rest).length ≥ 2 := by simp [le16]
+  have e2 : ¬ (le16 (d.length + 2) ++ d ++ rest).length < 2 := by omega
+  have e3 : (le16 (d.length + 2) ++ d ++ rest).drop 2 = d ++ rest := by simp [le16]
+  have e4 : rd16le ((le16 (d.length + 2) ++ d ++ rest).take 2) = d.length + 2 := by
+    simp only [le16, List.cons_append, List.nil_append, List.take, rd16le, u8_toNat]; omega
+  simp only [e2, if_false, e3, e4]
+  have e5 : ((d.length + 2 : Nat) : Int) - 2 = (d.length : Int) := by omega
+  rw [e5]
+  have hd' : d = encRows chn force fx 64 p.cells i := by rw [← hd]; unfold pack; rw [hrows]
+  rw [hd', ← hd'] at h3
+  rw [hd'] 
+  rw [hd'] at h3
+  rw [h3]
+  simp only [Option.map_some, h4]
+  congr 1
+  cases p; simp_all
+
 end Xmp.Fmt.S3m
